@@ -64,7 +64,7 @@ SEEDS_THOROUGH = SEEDS_QUICK + ['C1CC1C', 'C1CCC1']
 # medium seeds (5-10 atoms, Kekule forms only: hydrogens of aromatic atoms are not derivable from atoms and bonds): rings with ambiguous bases, stereo of every kind, zwitterion, metal
 SEEDS_MEDIUM = ['smi:C1=CC=CC=C1', 'smi:C[C@H](N)C(=O)O', 'smi:C/C=C/C=C\\C', 'smi:C1CC2CCC1C2', 'smi:C[N+](C)(C)CC([O-])=O', 'smi:C1CCC2(CC1)OCCO2', 'smi:O=C1C=CC(=O)C=C1',
                 'smi:C[C@H]1CC[C@@H](O)CC1', 'smi:CC=[C@]=CC', 'smi:C#CC[N+]#[C-]', 'smi:C[Mg]Br', 'smi:C1CC1C1CC1', 'smi:N1C=CC=C1', 'smi:C[C@@]12CCC[C@H]1C2', 'smi:OO.[Na+].[Cl-]', 'smi:C1CCO[C@H]1C', 'smi:N1CCC[C@H]1C(=O)O']
-SEEDS_MEDIUM_QUICK = SEEDS_MEDIUM[:5] + ['smi:C1CCO[C@H]1C']
+SEEDS_MEDIUM_QUICK = SEEDS_MEDIUM[:5] + ['smi:C1CCO[C@H]1C', 'smi:C1CC1C1CC1']
 
 
 # ----------------------------------------------------------------------------- raw snapshot, rebuild, readers
